@@ -16,6 +16,8 @@ MODULES = [
     'contracts.c11_completion',
     'contracts.c32_expiry',
     'contracts.c02_retries',
+    'contracts.c47_platforms',
+    'contracts.c47_replay',
 ]
 
 EXTRA_CHECKS = {'C26': ['contracts.c26_census:check'],
